@@ -249,6 +249,40 @@ def check_spin_flatten(ctx, rid, floor=8):
                         len(v.args[0].elts) == 2 and norm(v.args[0].elts[0]) == norm(v.args[0].elts[1]) and kind_of(v.args[0].elts[0]) in ("nHeavy", "nHydro", "nSuperHeavy", "norb"):
                     n2 += 1
                     ctx.fail(rid, m, n, qual, n, f"`{norm(n)}` doubles the per-molecule vector block-wise (m0, m1, ..., m0, m1, ...) while spin-flattened matrices are interleaved")
+    # by value: the statements of every spin branch (`if x.dim() == 4:`) are interpreted (sa.npsym) with concrete per-molecule vectors; whatever the spelling (helper with
+    # star-arguments, comprehension, tuple assignment), a vector that comes out with one entry per spin block must be the interleaved one (m0, m0, m1, m1, ...)
+    import numpy as np
+    from ..npsym import NpSym, _Frame, Raised
+    for m in mods:
+        for qual, func in m.functions.items():
+            for br in [n for n in ast.walk(func) if isinstance(n, ast.If) and m.qualname_of(n) == qual and norm(n.test).replace(" ", "").endswith(".dim()==4")]:
+                tname = norm(br.test).split(".")[0]
+                cands = {}
+                names = [a.arg for a in func.args.args + func.args.kwonlyargs] + sorted({x.id for x in ast.walk(func) if isinstance(x, ast.Name) and isinstance(x.ctx, ast.Store)})
+                for i_, nm in enumerate(dict.fromkeys(names)):
+                    if kind_of(ast.Name(id=nm.split("__")[0], ctx=ast.Load())) in ("nHeavy", "nHydro", "nSuperHeavy", "norb"):
+                        cands[nm] = np.array([1, 2, 3], dtype=np.int64) + 10 * (i_ + 1)
+                if not cands:
+                    continue
+                env = dict(cands)
+                env[tname] = np.zeros((3, 2, 2, 2), dtype=object)
+                fr = _Frame(NpSym(repo), m, env)
+                for st in br.body:
+                    try:
+                        fr.stmt(st)
+                    except (AnalysisError, Raised):
+                        continue
+                params_ = {a.arg for a in func.args.args + func.args.kwonlyargs}
+                for nm, orig in cands.items():
+                    if nm not in params_:
+                        continue        # locals derived inside the branch (norb = 4 nHeavy + nH) are functions of the expanded inputs
+                    v = fr.env.get(nm)
+                    if isinstance(v, np.ndarray) and v.shape == (6,) and v.dtype != object:
+                        n2 += 1
+                        ctx.check(bool((v == np.repeat(orig, 2)).all()), rid, m, br, qual, f"spin expansion of {nm}",
+                                  f"{qual}: `{nm}` comes out of the spin branch interleaved (m0, m0, m1, m1, ...) like the spin-flattened matrices (interpreted)",
+                                  f"{qual}: in the spin branch `{nm}` = {orig.tolist()} becomes {v.tolist()} but the spin-flattened matrices are ordered (m0 alpha, m0 beta, m1 alpha, ...): "
+                                  f"in a mixed-size unrestricted batch matrices are packed / shifted with another molecule's sizes")
     ctx.floor(rid, floor)
 
 
